@@ -279,7 +279,7 @@ func (ts *SimpleTimers) iterate(ctx context.Context) error {
 
 		_ = wk.NewJob(func(context.Context, uint64) error {
 			if keep, err := tr.run(); err != nil || !keep {
-				_ = ts.removeTimer(tr.id)
+				_ = ts.removeSameTimer(tr)
 			}
 
 			return nil
@@ -325,6 +325,23 @@ func (ts *SimpleTimers) removeAllTimers() int64 {
 
 		removed += c
 	}
+
+	return removed
+}
+
+// removeSameTimer removes the given timer only when it is still the one
+// registered under it's id; the newly registered timer under the same id is
+// kept.
+func (ts *SimpleTimers) removeSameTimer(t *SimpleTimer) bool {
+	removed, _ := ts.timers.Remove(t.id, func(timer *SimpleTimer, found bool) error {
+		if !found || timer != t {
+			return ErrLockedSetIgnore
+		}
+
+		timer.whenRemoved()
+
+		return nil
+	})
 
 	return removed
 }
